@@ -1,11 +1,14 @@
 import Driver.Util
 import Driver.Ante
+import Driver.Agg
 open Driver
 
 def dispatch (fam : String) : Option (List String → String → Option Res) :=
   match fam with
   | "ante" => some runAnte
   | "track" => some runTrack
+  | "median" => some runMedian
+  | "mode" => some runMode
   | _ => none
 
 def splitArrow (fs : List String) : List String × String :=
